@@ -11,7 +11,7 @@ import random
 from . import common as C, proggen as P, progrun as R, sexp
 
 PROP = "C05"
-MODULES = ["RuschmProofs.C05Shapes"]
+MODULES = ["RuschmProofs.C05Shapes", "RuschmProofs.C05Meaning"]
 FORMS = ["begin", "let", "let*", "cond", "case", "and", "or", "when", "unless"]
 
 
